@@ -86,12 +86,13 @@ class PlanGen:
     def point(self, run=None, stream="primary", checkpoint=0.85, move=0.6, devices=None, also_read=None, drop=0.08):
         rng, S = self.rng, self.S
         body = []
-        if rng.random() < checkpoint:
+        idem = getattr(self, "idempotent", False)
+        if idem or rng.random() < checkpoint:
             body.append(msg(S, "checkpoint"))
-        if self.motors and rng.random() < move:
+        if self.motors and (idem or rng.random() < move):
             g = self.group()
             for m in self.motors:
-                if rng.random() < 0.7:
+                if idem or rng.random() < 0.7:
                     self._target[m] = round(self._target[m] + rng.choice([1.0, -1.0, 2.0, 0.5]), 3)
                     body.append(msg(S, "set", m, self._target[m], group=g))
             body.append(msg(S, "wait", None, group=g))
